@@ -25,10 +25,19 @@ OpTriples == {<<"1", o1, "2", o2, "3">> : o1 \in BinOps, o2 \in BinOps}
              \cup {<<"1", o, "error", "'a'", o2, "3">> : o \in {"+", "*"}, o2 \in {"+", "*"}}
              \cup {<<u, "if", "x", "then", "1", "else", "2", "+", "3">> : u \in UnOps}
 
+\* chains of up to three suffixes after a base (longer than the exhaustive token-sequence bound reaches): index / field / call /
+\* every slice form / object extension in every order
+Suffixes == {<<".", "y">>, <<"[", "1", "]">>, <<"[", ":", "1", "]">>, <<"[", "1", ":", "]">>, <<"[", "::", "1", "]">>, <<"[", ":", "]">>,
+             <<"[", "1", ":", "2", ":", "1", "]">>, <<"(", ")">>, <<"(", "1", ")">>, <<"(", "1", ")", "tailstrict">>, <<"{", "}">>}
+Bases == {<<"x">>, <<"'a'">>, <<"(", "x", ")">>, <<"-", "x">>, <<"super", ".", "y">>}
+Chains == {b \o s1 : b \in Bases, s1 \in Suffixes} \cup {b \o s1 \o s2 : b \in Bases, s1 \in Suffixes, s2 \in Suffixes}
+          \cup {<<"x">> \o s1 \o s2 \o s3 : s1 \in Suffixes, s2 \in Suffixes, s3 \in Suffixes}
+
 VARIABLE st
-Init == IF Family = "ops" THEN st \in {[ts |-> t] : t \in OpTriples}
+Init == IF Family = "chains" THEN st \in {[ts |-> t] : t \in Chains}
+        ELSE IF Family = "ops" THEN st \in {[ts |-> t] : t \in OpTriples}
         ELSE st \in {[ts |-> <<t>>] : t \in Alphabet}
-Next == /\ Family # "ops" /\ Len(st.ts) < MaxLen
+Next == /\ Family \notin {"ops", "chains"} /\ Len(st.ts) < MaxLen
         /\ \E t \in Alphabet : st' = [ts |-> Append(st.ts, t)]
 
 Emit == PrintT("REPLAY " \o ToJson([fam |-> "grammar." \o Family, ts |-> st.ts, res |-> Parse(st.ts)]))
